@@ -276,6 +276,8 @@ impl PhoneticSuggestion {
                     if let Some(base) = selections.get(key).filter(|base| !base.is_empty()) {
                         let rmc = base.chars().last().unwrap();
                         let suffix_lmc = suffix.chars().next().unwrap();
+                        // Forget what an earlier split of the word has made.
+                        selected.clear();
                         selected.push_str(base);
 
                         match rmc {
